@@ -15,7 +15,7 @@ vars == <<l, bad>>
 EINVAL == -22
 
 \* rec: [scen, faults: <<<<side, index, errno, kind, ord>>...>>, r, forks, left, pidr, cexec, wired, dnfd, dnalloc, maskok, dispok, cwdok,
-\*       cclean, r2, dnfd2, dnalloc2, left2, mon: <<<<code, a>>...>>, restorer: BOOLEAN (a fault hit the mask-restoring call), childsig: BOOLEAN]
+\*       launched, cclean, r2, dnfd2, dnalloc2, left2, mon: <<<<code, a>>...>>, restorer: BOOLEAN (a fault hit the mask-restoring call), childsig: BOOLEAN]
 Clauses(rec) ==
   LET errs == {-rec.faults[i][3] : i \in 1..Len(rec.faults)}
       mons == {rec.mon[i][1] : i \in 1..Len(rec.mon)}
@@ -29,6 +29,9 @@ Clauses(rec) ==
   (IF rec.r > 0 /\ ~rec.reportfault /\ (rec.forks # 1 \/ rec.cexec # 1 \/ rec.pidr # 1)
      THEN {"C04:success-reported-without-a-running-program", "C06:running-handle-without-own-child"} ELSE {}) \cup
   (IF rec.r > 0 /\ ~rec.reportfault /\ rec.wired # 1 THEN {"C04:success-reported-but-child-not-wired-as-requested"} ELSE {}) \cup
+  \* C03 (and C04's "the requested program really was executed"): a fault that start survives must not change what is launched
+  (IF rec.r > 0 /\ ~rec.reportfault /\ rec.launched # 1
+     THEN {"C03:success-reported-but-program-arguments-environment-or-directory-differ", "C04:success-reported-but-another-program-was-executed"} ELSE {}) \cup
   (IF rec.r > 0 /\ rec.r2 # EINVAL THEN {"C14:second-start-accepted-on-running-handle"} ELSE {}) \cup
   (IF rec.r = 0 THEN {"C04:start-returned-0-outside-fork-mode"} ELSE {}) \cup
   \* C05: nothing leaked after destroy, no bad close / free on any path
